@@ -104,6 +104,7 @@ pub fn pick_profile(r: &mut Rng, weights: &ProfileWeights) -> Profile {
                 (obs::D_FINISH_AT_HEAD, "finish-at-head"),
                 (obs::D_AFTER_NOTIFY, "after-notify"),
                 (obs::D_ESTIMATE_REWIND, "estimate-rewind"),
+                (obs::D_GATE, "gate"),
             ];
             let allowed: Vec<_> = all.iter().filter(|(b, _)| weights.directors & b != 0).collect();
             let (bits, name) = if allowed.is_empty() { all[r.usize(all.len())] } else { **r.pick(&allowed) };
